@@ -618,7 +618,7 @@ impl Property for C02 {
     fn budget(&self, tier: Tier) -> Budget {
         match tier {
             Tier::Quick => Budget { cases: 20_000, min_len: 8, max_len: 300 },
-            Tier::Thorough => Budget { cases: 1_000_000, min_len: 8, max_len: 360 },
+            Tier::Thorough => Budget { cases: 700_000, min_len: 8, max_len: 360 },
         }
     }
     fn post(&self, tier: Tier, seed: u64, stats: &mut crate::engine::Stats) -> Result<(), (String, String, Vec<u8>)> {
@@ -653,7 +653,7 @@ impl Property for C03 {
     fn budget(&self, tier: Tier) -> Budget {
         match tier {
             Tier::Quick => Budget { cases: 16_000, min_len: 8, max_len: 400 },
-            Tier::Thorough => Budget { cases: 800_000, min_len: 8, max_len: 460 },
+            Tier::Thorough => Budget { cases: 600_000, min_len: 8, max_len: 460 },
         }
     }
     fn post(&self, tier: Tier, seed: u64, stats: &mut crate::engine::Stats) -> Result<(), (String, String, Vec<u8>)> {
